@@ -1,5 +1,6 @@
 import EventppVerif.Q.Machine
 import EventppVerif.Q.Copy
+import EventppVerif.Util.Wrappers
 /- Line-protocol front end for Q/Machine.lean (mode `q` of the driver). -/
 open Evp Evp.Q
 
@@ -18,6 +19,10 @@ def parseCmd : List String → Option QCmd
   -- condition is applied when the calls are shown (`showEv`), cf. `C12_conditional`, `C12_adapter`
   | ["listencond", k, cb, _, _] => some (.listen (nat! k) (nat! cb))
   | ["listenadapt", k, cb] => some (.listen (nat! k) (nat! cb))
+  -- listeners added through CounterRemover / ConditionalRemover with the dispatcher / queue as target: a listener of the
+  -- machine whose behaviour first removes itself when the removal is due (`countedBeh`, cf. Util/Wrappers.lean, C16)
+  | ["listencounted", k, cb, _] => some (.listen (nat! k) (nat! cb))
+  | ["listencondrem", k, cb, _, _] => some (.listen (nat! k) (nat! cb))
   | ["unlisten", k, h] => some (.unlisten (nat! k) (nat! h))
   | ["hasany", k] => some (.hasAny (nat! k))
   | ["dispatch", k, a] => some (.dispatch (nat! k) (nat! a))
@@ -75,17 +80,33 @@ structure Script where
   cciR : Nat := 0
   /-- callbacks registered through `conditionalFunctor`: (cb, M, R), the wrapped listener runs iff `arg % M == R` -/
   conds : List (Nat × Nat × Nat) := []
+  /-- callbacks added through CounterRemover (cb, trigger count) / ConditionalRemover (cb, M, R: remove when `arg % M == R`) -/
+  counted : List (Nat × Int) := []
+  condrem : List (Nat × Nat × Nat) := []
   /-- top-level commands; `none` entries are the copy / move meta-commands (in `metas`, by position) -/
   dos : List QCmd := []
   metas : List (Nat × String) := []
 
+/-- is the removal of a wrapped listener due at this call? (`nth` = number of earlier calls of the callback) -/
+def removalDue (sc : Script) (call : QCall) (nth : Nat) : Bool :=
+  call.kind == .listener &&
+  ((match sc.counted.find? (fun p => p.1 == call.cb) with
+    | some p => Evp.Wrap.counterDue p.2 nth
+    | none => false) ||
+   (match sc.condrem.find? (fun p => p.1 == call.cb) with
+    | some (_, m, r) => m != 0 && call.arg % m == r
+    | none => false))
+
 def behOf (sc : Script) : QBeh where
   run := fun call nth =>
-    match sc.beh.find? (fun e => e.cb == call.cb && e.nth == some nth) with
-    | some e => progOf (instCmds e call.h) e.verdict
-    | none => match sc.beh.find? (fun e => e.cb == call.cb && e.nth == none) with
+    let inner : QProg :=
+      match sc.beh.find? (fun e => e.cb == call.cb && e.nth == some nth) with
       | some e => progOf (instCmds e call.h) e.verdict
-      | none => .ret true
+      | none => match sc.beh.find? (fun e => e.cb == call.cb && e.nth == none) with
+        | some e => progOf (instCmds e call.h) e.verdict
+        | none => .ret true
+    -- the wrapper removes the listener BEFORE it calls the wrapped listener (Generated/RemoverFrag: removeBeforeCall)
+    if removalDue sc call nth then .op (.unlisten call.key call.h) (fun _ => inner) else inner
   rewrite := fun cb a =>
     if sc.norw then a else
     match sc.rw.find? (fun p => p.1 == cb) with
@@ -105,6 +126,16 @@ def showKind : CallKind → String
   | .pred => "pred"
 
 /-- conditions found in a command list (`listencond K CB M R`) -/
+def countedOf (cmds : List (List String)) : List (Nat × Int) :=
+  cmds.filterMap (fun ts => match ts with
+    | ["listencounted", _, cb, n] => some (nat! cb, n.toInt?.getD 0)
+    | _ => none)
+
+def condremOf (cmds : List (List String)) : List (Nat × Nat × Nat) :=
+  cmds.filterMap (fun ts => match ts with
+    | ["listencondrem", _, cb, m, r] => some (nat! cb, nat! m, nat! r)
+    | _ => none)
+
 def condsOf (cmds : List (List String)) : List (Nat × Nat × Nat) :=
   cmds.filterMap (fun ts => match ts with
     | ["listencond", _, cb, m, r] => some (nat! cb, nat! m, nat! r)
@@ -153,7 +184,20 @@ def run (sc : Script) : List String := Id.run do
       let (c', halted) := QCfg.runN b stepBudget { c with stack := [.prog (.op cmd (fun _ => .ret true))] }
       c := { c' with stack := [] }
       let newEvs := (c.trace.take (c.trace.length - before)).reverse
-      out := out ++ newEvs.filterMap (showEv sc.showKeys sc.conds)
+      let oldEvs := c.trace.drop (c.trace.length - before)
+      -- the `unlisten` a remover wrapper performs on itself is internal to the library: its result is not shown
+      let mut seen : List QEv := oldEvs
+      let mut dropNext := false
+      for e in newEvs do
+        match e with
+        | .call cl =>
+          dropNext := removalDue sc cl (countCalls seen cl.cb)
+          out := out ++ (showEv sc.showKeys sc.conds e).toList
+        | .res _ =>
+          if dropNext then dropNext := false
+          else out := out ++ (showEv sc.showKeys sc.conds e).toList
+        | _ => out := out ++ (showEv sc.showKeys sc.conds e).toList
+        seen := e :: seen
       if !halted then out := out ++ ["fuel"]
     let qs := c.queue.map (fun s => match s.ev with
       | some e => s!"{e.key}:{e.arg}"
@@ -179,7 +223,8 @@ def addLine (sc : Script) (line : String) : Script :=
   | ["cfg", "cci", m, r] => { sc with cciM := nat! m, cciR := nat! r }
   | "beh" :: cb :: nth :: v :: rest =>
     { sc with beh := sc.beh ++ [⟨nat! cb, if nth = "*" then none else some (nat! nth), v != "0", splitSemi rest⟩],
-              conds := sc.conds ++ condsOf (splitSemi rest) }
+              conds := sc.conds ++ condsOf (splitSemi rest), counted := sc.counted ++ countedOf (splitSemi rest),
+              condrem := sc.condrem ++ condremOf (splitSemi rest) }
   | ["do", "qcopy", _] => { sc with metas := sc.metas ++ [(sc.dos.length, "copy")], dos := sc.dos ++ [.emptyq] }
   | ["do", "qmove", _] => { sc with metas := sc.metas ++ [(sc.dos.length, "move")], dos := sc.dos ++ [.emptyq] }
   | ["do", "qassign", _] => { sc with metas := sc.metas ++ [(sc.dos.length, "copy")], dos := sc.dos ++ [.emptyq] }
@@ -189,7 +234,8 @@ def addLine (sc : Script) (line : String) : Script :=
   | ["do", "dqne"] => { sc with metas := sc.metas ++ [(sc.dos.length, "dqne")], dos := sc.dos ++ [.emptyq] }
   | "do" :: rest =>
     match parseCmd rest with
-    | some c => { sc with dos := sc.dos ++ [c], conds := sc.conds ++ condsOf [rest] }
+    | some c => { sc with dos := sc.dos ++ [c], conds := sc.conds ++ condsOf [rest], counted := sc.counted ++ countedOf [rest],
+                           condrem := sc.condrem ++ condremOf [rest] }
     | none => sc
   | _ => sc
 
